@@ -520,7 +520,7 @@ def _():
 
 
 @bounded("encrypted-documents-round-trip", props=["C10"],
-         bound="quick: 60 documents over {RC4-40 R2, RC4-40/128 R3, V2 and AESV2 R4 with EncryptMetadata on/off, AESV3 R5, R6} x password pairs (empty, ASCII, latin-1, > 32 bytes, > 127 bytes of UTF-8) x permission words x non-zero generation numbers x strings, arrays of strings, streams, an object stream (R>=4); opened with user, owner and a wrong password; thorough: 6000")
+         bound="quick: 60 documents over {RC4-40 R2, RC4-40/128 R3 (also /V 1 with revision 3), V2 and AESV2 R4 with EncryptMetadata on/off, AESV3 R5, R6} x password pairs (empty, ASCII, latin-1, > 32 bytes, > 127 bytes of UTF-8) x permission words x non-zero generation numbers x strings, arrays of strings, streams, an object stream (R>=4); opened with user, owner and a wrong password; thorough: 6000")
 def _(tier, seed):
     import io, random
     from specs import pdfcrypt as PC
@@ -531,7 +531,7 @@ def _(tier, seed):
     PDFParser = real_module("pdfminer.pdfparser").PDFParser
     failures, evals, distinct = [], 0, set()
     for _ in range(n):
-        kind = rng.choice(["R2", "R3-40", "R3-128", "R4-V2", "R4-AES", "R4-AES-nometa", "R5", "R6"])
+        kind = rng.choice(["R2", "R3-40", "R3-40-V1", "R3-128", "R4-V2", "R4-AES", "R4-AES-nometa", "R5", "R6"])
         # the last two of each are longer than 127 bytes once encoded as UTF-8 (revisions 5/6 keep the first 127 *bytes*, which cuts a character in two)
         user = rng.choice([b"", b"user", b"p\xe4ss", b"u" * 40, b"\xe9" * 100, b"a" + b"\xfc" * 90])
         owner = rng.choice([b"owner", b"", b"o" * 35, b"\xf6wner", b"\xe8" * 70, b"ab" + b"\xe5" * 126])
@@ -547,7 +547,7 @@ def _(tier, seed):
             h = PC.V5(int(kind[1]), user_u, owner_u, P)
         else:
             R = int(kind[1])
-            h = PC.Legacy(R, 128 if kind in ("R3-128",) or R == 4 else 40, user, owner, P, docid, aes="AES" in kind, encrypt_metadata="nometa" not in kind)
+            h = PC.Legacy(R, 128 if kind in ("R3-128",) or R == 4 else 40, user, owner, P, docid, aes="AES" in kind, encrypt_metadata="nometa" not in kind, v1=kind.endswith("-V1"))
         plain = {4: b"hello world", 5: [b"a", b"", b"\x00\xff" * 9], 6: {"S": b"in dict"}}
         gens = {4: rng.choice([0, 0, 2, 258]), 5: 0, 6: rng.choice([0, 7])}
         sdata = bytes(rng.randrange(256) for _ in range(rng.randint(0, 50)))
